@@ -234,10 +234,17 @@ class Interp:
             tgt = env[st["tgt"]]
             seed = self.dec(st.get("seed"))
             if self.backend == "mg":
-                if seed is None:
-                    tgt.backward()
-                else:
-                    tgt.backward(seed)
+                if st.get("inject_bw"):
+                    from mgverif.hooks import REG
+                    REG.bw_fault = dict(st["inject_bw"])
+                try:
+                    if seed is None:
+                        tgt.backward()
+                    else:
+                        tgt.backward(seed)
+                finally:
+                    if st.get("inject_bw"):
+                        REG.bw_fault = None
             else:
                 self.bw[i] = (np.array(tgt), None if seed is None else np.asarray(seed))
         elif k == "clear":
@@ -248,6 +255,12 @@ class Interp:
                 env[st["tgt"]].null_grad()
         elif k == "del":
             env.pop(st["tgt"], None)
+        elif k == "sever":
+            # epoch boundary (after backward()/clear_graph()): MyGrad no longer keeps these tensors in a view family, and its in-place
+            # updates act on a copy of the target's memory -> in the NumPy model each named survivor gets memory of its own
+            if self.backend == "np":
+                for n in st["names"]:
+                    env[n] = np.copy(env[n], order="K")
         elif k == "gc":
             gc.collect()
         elif k == "alias":
